@@ -84,6 +84,10 @@ def gen_cases(rng, tier, scale):
          {'b': 'old', 'l': [1], 'o': {'a': 'new'}}, 'old|new||||N|E'),
         ('{{b}}|{{*setctx 5}}{{b}}|{{this}}', {'b': 'old'}, 'old||5'),
         ('{{#with w}}{{*setctx @root.o}}{{a}}{{b}}{{/with}}|{{b}}', {'b': 'old', 'w': {'b': 'wb'}, 'o': {'a': 'new'}}, None),
+        # a registry helper whose name is a path: the bare tag looks the raw text up among the helpers first
+        ('{{math/pi}}|{{{math/pi}}}|{{&math/pi}}', {'math': {'pi': 'field'}}, 'math/pi(;;bti;-)|math/pi(;;bti;-)|math/pi(;;bti;-)'),
+        ('{{math/pi}}', {}, 'math/pi(;;bti;-)'), ('{{ns.id}}', {'ns': {'id': 'field'}}, ('err', 'ParamNotFoundForIndex')),
+        ('{{#with math}}{{pi}}{{/with}}|{{math.pi}}|{{math/[pi]}}', {'math': {'pi': 'field'}}, 'field|field|field'),
         ('{{lh 1}}', {}, ('err', 'HelperNotFound')),
         ('{{#if t}}{{*sethelper "lh"}}{{/if}}{{lh 1}}', {'t': True}, 'local(lh:-:v:-:u1)'),
         ('{{> il}}', {}, ('err', 'PartialNotFound')),
